@@ -891,53 +891,59 @@ def spec_features(s):
   sp(s, 0)
   return sorted(out)
 
-def nsga2_sweep(ctx, rng, n):
-  """Oracle only: the NSGA-II operators (nondominated_sort, crowding_distance_sort and the pipeline the package composes from
-  them) return exactly the members of their input, keep the inputs unchanged and are functions of their input."""
-  pg, base, M, R, S, W = lib()
+def nsga2_check(fitness, alias):
+  """The NSGA-II operators on one population (fitness tuples; alias[i] = index of the object at position i). Returns hits."""
   import importlib
+  pg, base, M, R, S, W = lib()
   nsga2 = importlib.import_module('pyglove.ext.evolution.nsga2')
   spec = pg.dna_spec(pg.oneof([0, 1, 2, 3]))
   dom = lambda a, b: all(x >= y for x, y in zip(a, b)) and any(x > y for x, y in zip(a, b))
-  done = 0
+  objs = []
+  for i, f in enumerate(fitness):
+    d = pg.DNA(i % 4, spec=spec); base.set_fitness(d, tuple(float(x) for x in f)); objs.append(d)
+  pop = [objs[j] for j in alias]
+  before = [pg.to_json_str(o) for o in objs]
+  ids = sorted(id(o) for o in pop)
+  hits = []
+  def fail(op, disc, what):
+    hits.append(('C14/selector-members/nsga2.%s/%s' % (op, disc), what))
+  try:
+    fronts = nsga2.nondominated_sort()(pop)
+    if sorted(id(o) for f in fronts for o in f) != ids:
+      fail('nondominated_sort', 'not-a-partition', 'the frontiers are not a partition of the input population'); return hits
+    fit = base.get_fitness
+    for i, f in enumerate(fronts):
+      later = [y for g in fronts[i:] for y in g]
+      if any(dom(fit(y), fit(x)) for x in f for y in later):
+        fail('nondominated_sort', 'dominated-member', 'a member of frontier %d is dominated by a member of the same or a later frontier' % i); break
+      if i > 0 and any(not any(dom(fit(y), fit(x)) for y in fronts[i - 1]) for x in f):
+        fail('nondominated_sort', 'frontier-too-late', 'a member of frontier %d is not dominated by any member of frontier %d' % (i, i - 1)); break
+    for f in fronts:
+      g = nsga2.crowding_distance_sort()(list(f))
+      if sorted(id(o) for o in g) != sorted(id(o) for o in f):
+        fail('crowding_distance_sort', 'not-a-permutation', 'the sorted frontier is not a permutation of the frontier'); break
+    pipe = lambda: (base.Lambda(nsga2.nondominated_sort()).for_each(nsga2.crowding_distance_sort()).flatten())(list(pop))
+    a, b = pipe(), pipe()
+    if sorted(id(o) for o in a) != ids:
+      fail('pipeline', 'not-a-permutation', 'nondominated_sort >> for_each(crowding_distance_sort) >> flatten does not return exactly the members of its input')
+    elif [id(o) for o in a] != [id(o) for o in b]:
+      fail('pipeline', 'nondeterministic', 'two runs on the same population give different orders')
+    if before != [pg.to_json_str(o) for o in objs]:
+      fail('pipeline', 'input-modified', 'pg.to_json of the input DNAs changed')
+  except Exception as e:   # pylint: disable=broad-except
+    hits.append(('C14/raises/nsga2/%s' % msg_key(e), 'the NSGA-II operators raise %s on a population with tuple fitness: %s' % (type(e).__name__, str(e)[:160])))
+  return hits
+
+def nsga2_sweep(ctx, rng, n):
+  """Oracle only: the NSGA-II operators (nondominated_sort, crowding_distance_sort and the pipeline the package composes from
+  them) return exactly the members of their input, keep the inputs unchanged and are functions of their input."""
   for _ in range(n):
     m = rng.choice([0, 1, 2, 3, 5, 8]); k = rng.choice([1, 2, 2, 3])
-    objs = []
-    for i in range(m):
-      d = pg.DNA(rng.randrange(4), spec=spec); base.set_fitness(d, tuple(float(rng.randint(0, 3)) for _ in range(k))); objs.append(d)
-    pop = [rng.choice(objs) if objs and rng.random() < 0.1 else o for o in objs]
-    case = dict(kind='nsga2', fitness=[list(base.get_fitness(o)) for o in pop], alias=[objs.index(o) for o in pop])
-    before = [pg.to_json_str(o) for o in objs]
-    ids = sorted(id(o) for o in pop)
-    def fail(op, disc, what):
-      ctx.hit('C14/selector-members/nsga2.%s/%s' % (op, disc), what, case)
-    try:
-      fronts = nsga2.nondominated_sort()(pop)
-      if sorted(id(o) for f in fronts for o in f) != ids:
-        fail('nondominated_sort', 'not-a-partition', 'the frontiers are not a partition of the input population'); continue
-      fit = base.get_fitness
-      for i, f in enumerate(fronts):
-        later = [y for g in fronts[i:] for y in g]
-        if any(dom(fit(y), fit(x)) for x in f for y in later):
-          fail('nondominated_sort', 'dominated-member', 'a member of frontier %d is dominated by a member of the same or a later frontier' % i); break
-        if i > 0 and any(not any(dom(fit(y), fit(x)) for y in fronts[i - 1]) for x in f):
-          fail('nondominated_sort', 'frontier-too-late', 'a member of frontier %d is not dominated by any member of frontier %d' % (i, i - 1)); break
-      for f in fronts:
-        g = nsga2.crowding_distance_sort()(list(f))
-        if sorted(id(o) for o in g) != sorted(id(o) for o in f):
-          fail('crowding_distance_sort', 'not-a-permutation', 'the sorted frontier is not a permutation of the frontier'); break
-      pipe = lambda: (base.Lambda(nsga2.nondominated_sort()).for_each(nsga2.crowding_distance_sort()).flatten())(list(pop))
-      a, b = pipe(), pipe()
-      if sorted(id(o) for o in a) != ids:
-        fail('pipeline', 'not-a-permutation', 'nondominated_sort >> for_each(crowding_distance_sort) >> flatten does not return exactly the members of its input')
-      elif [id(o) for o in a] != [id(o) for o in b]:
-        fail('pipeline', 'nondeterministic', 'two runs on the same population give different orders')
-      if before != [pg.to_json_str(o) for o in objs]:
-        fail('pipeline', 'input-modified', 'pg.to_json of the input DNAs changed')
-    except Exception as e:   # pylint: disable=broad-except
-      ctx.hit('C14/raises/nsga2/%s' % msg_key(e), 'the NSGA-II operators raise %s on a population with tuple fitness: %s' % (type(e).__name__, str(e)[:160]), case)
-    done += 1
-  return done
+    fitness = [[rng.randint(0, 3) for _ in range(k)] for _ in range(m)]
+    alias = [rng.randrange(m) if rng.random() < 0.1 else i for i in range(m)]
+    for sig, what in nsga2_check(fitness, alias):
+      ctx.hit(sig, what, dict(kind='nsga2', fitness=fitness, alias=alias))
+  return n
 
 def process_case(c):
   """One case in a worker process: run the implementation with the recorder, evaluate the oracle.  Never raises:
@@ -970,10 +976,9 @@ def run_jobs(fn, jobs, nproc):
 def replay(ctx, rp):
   c = rp['case']
   if c.get('kind') == 'nsga2':
-    class _C:
-      hits = []
-      def hit(self, *a): self.hits.append(a)
-    print('  nsga2 cases are regenerated from the seed; re-run ./check C14'); return False
+    hits = nsga2_check(c['fitness'], c['alias'])
+    for h in hits: print('  still fails:', h)
+    return not hits
   if c.get('kind') == 'crossover-sweep':
     pg, base, M, R, S, W = lib()
     try:
